@@ -160,8 +160,10 @@ class SimRaw(io.RawIOBase):
         self.pos = end
 
     def seek(self, off, whence=0):
+        act = None
         if self.kp:
-            self.world.step("tmp-seek", self.path, off)
+            act = self.world.step("tmp-seek", self.path, off)
+            self.world._after(act)
         if whence == 0:
             self.pos = off
         elif whence == 1:
@@ -457,8 +459,9 @@ class World:
     def temporary_file(self):
         self.anon_n += 1
         name = "<tmp:%d>" % self.anon_n
-        self.step("tmp-create", name, 0)
+        act = self.step("tmp-create", name, 0)
         self.anon[name] = bytearray()
+        self._after(act)
         raw = SimRaw(self, name, True, True, kindpfx="tmp-")
         return io.BufferedRandom(raw, buffer_size=max(1, self.bin_buf))
 
